@@ -1062,9 +1062,6 @@ def block_random(rec):
 
 
 def run(rec):
-    extra = os.environ.get('VERIF_ASSUME_KNOWN')
-    if extra:
-        rec.known_keys |= set(extra.split(','))
     rec.rule = ('one case = one WebSocket connection (responder/middleware/error-handler scripts, client script, server '
                 'configuration, optional send-failure index); non-trivial = at least one WebSocket operation was judged '
                 'by the reference model or at least one event reached the fake server; distinct by the whole case')
@@ -1120,9 +1117,6 @@ def run(rec):
 
 
 def replay(rec, w):
-    extra = os.environ.get('VERIF_ASSUME_KNOWN')
-    if extra:
-        rec.known_keys |= set(extra.split(','))
     case = w['witness']['case']
     o = run_case(rec, case, 'replay')
     rec.case(json.dumps(case, sort_keys=True) + '#replay')
